@@ -147,8 +147,34 @@ def F_fn(crate, comp):
     return None
 
 
+def run_leaf_writer_sizes(ctx):
+    """the byte counts that size.write-agree assumes for the hand-written list writers are measured from their bodies"""
+    from ..sizeexpr import LIST_WRITERS
+    from ..facts import facts
+    from . import c01_leaf
+    FB = {c: facts(c) for c in ("wow_world_messages", "wow_world_base", "wow_login_messages")}
+    meas = c01_leaf.measure_list_writers(FB)
+    n = 0
+    for name, (per, const) in sorted(LIST_WRITERS.items()):
+        rows = meas.get(name)
+        fn = next((f for f in FB["wow_world_messages"].all("fn", lambda p: p.endswith("::" + name))), None)
+        file, line = (fn["file"], fn["line"]) if fn else (None, None)
+        if not isinstance(rows, list) or len(rows) < 4:
+            ctx.violate("leaf.writer-size", f"{name}|shape", f"{name}: bytes written not measurable — review ({rows})", file, line)
+            continue
+        for cnt, total, elems in rows:
+            n += 1
+            want = (sum(elems) if per == "sum" else per * cnt) + const
+            if total != want:
+                ctx.violate("leaf.writer-size", f"{name}|bytes", f"{name} writes {total} bytes for {cnt} element(s) of {elems} bytes; size.write-agree (and the generated size()) assume "
+                            f"{'the element sizes' if per == 'sum' else str(per) + ' per element'} + {const}", file, line)
+                break
+    ctx.rule("leaf.writer-size", n, floor=12, note="hand-written list writers (achievement arrays, addon array) x element counts: measured bytes = per-element * len + constant used by size.write-agree")
+
+
 def run(ctx):
     run_size(ctx)
+    run_leaf_writer_sizes(ctx)
     run_cycles(ctx)
     try:
         from . import c02_frame
